@@ -47,6 +47,7 @@ func c20(p *core.Prog, r *core.Report) {
 	r.Rule("C20-R6", "E6 paths", 3, "a sent error frame is not lost to the connection closing")
 	recvPriority(p, r, "C20-R6")
 	refusalOrder(p, r, "C20-R6")
+	errorFrameQueuedUnlessClosed(p, r, "C20-R6")
 	errorFrameBeforeCompletion(p, r, "C20-R6")
 }
 
